@@ -15,6 +15,7 @@ import (
 	"os"
 	"os/exec"
 	"sort"
+	"strconv"
 	"strings"
 	"testing"
 	"time"
@@ -353,15 +354,31 @@ func RunEngine(t *testing.T, e Engine, seed uint64, thorough bool, resultPath st
 	impl := make([][]string, len(cases))
 	seen := map[string]bool{}
 
+	// VERIF_SKIP_CASES: indices of cases on which an earlier run of this engine died (reported separately by the
+	// caller); they are generated (the random stream stays the same) but not executed, so the rest is still explored
+	skip := map[int]bool{}
+
+	for _, f := range strings.Split(os.Getenv("VERIF_SKIP_CASES"), ",") {
+		if n, err := strconv.Atoi(strings.TrimSpace(f)); err == nil && replay == nil {
+			skip[n] = true
+		}
+	}
+
 	tracer, isTracer := e.(Tracer)
 
 	for i, c := range cases {
+		if skip[i] {
+			cases[i].Ops, impl[i] = nil, nil
+
+			continue
+		}
+
 		// a panic in a goroutine of the code under test kills the process: leave the case being executed behind,
 		// so that the caller can report (and shrink) the input that crashes the implementation
 		if resultPath != "" {
-			cur := map[string]any{"header": c.Header, "ops": c.Ops}
+			cur := map[string]any{"header": c.Header, "ops": c.Ops, "index": i}
 			if isTracer {
-				cur = map[string]any{"header": c.Header, "ops": c.Ops, "scenario_header": c.Header, "scenario": c.Ops}
+				cur = map[string]any{"header": c.Header, "ops": c.Ops, "scenario_header": c.Header, "scenario": c.Ops, "index": i}
 			}
 
 			if b, err := json.Marshal(cur); err == nil {
@@ -396,7 +413,11 @@ func RunEngine(t *testing.T, e Engine, seed uint64, thorough bool, resultPath st
 		seen[h] = true
 	}
 
-	res.Cases = len(cases)
+	res.Cases = len(cases) - len(skip)
+
+	if len(skip) > 0 {
+		res.Extra["skipped_cases_crashed_earlier"] = len(skip)
+	}
 
 	for _, spec := range []bool{false, true} {
 		drv, err := runDriver(e.Name(), spec, cases)
